@@ -217,7 +217,10 @@ func judgeC14(j *judgeCtx) {
 		if c.K == opSettle && c.Arg == 77 && wd.probeSub > 0 {
 			s := wd.subs[wd.probeSub]
 			st := j.stateAt(c.Inv)
-			if st == lsU || !j.accepted(s) {
+			// the reference state must be known and the same from the probe's submission
+			// to this point (a lifecycle call still blocked at the quiescent point where
+			// the probe went in returns later: the probe then met an unknown state)
+			if st == lsU || !j.accepted(s) || s.AddInv == 0 || j.stateDuring(s.AddInv, c.Inv) != st {
 				continue
 			}
 			ran := len(s.Exits) > 0
